@@ -1,5 +1,6 @@
 import QmcModel.Proto
 import QmcModel.Interaction
+import QmcModel.QmcCtor
 open Qmc Qmc.Proto
 
 /-- `ctor <variant> <mat> <vars>` → `E` | `P` | `ok n const constdiag sym offset attable wronglen` -/
@@ -24,8 +25,57 @@ def describe (r : Res (Interaction × Rat)) : String :=
       | .panic => "P"
     s!"ok {i.n} {showBool i.isConstant} {showBool i.isConstantDiag} {sym} {showRat off} {String.intercalate "," table} {wrong}"
 
+/-! ### kind `qmcctor`: a sequence of events on ONE sampler (model: QmcModel/QmcCtor.lean)
+
+`qmcctor <nvars> <event>…` with events `<variant>:<mat>:<vars>` (a `make_*interaction*` call),
+`step:<heatbath 0|1>` (time steps; the only field they touch is the lazily built heat-bath table),
+`clone:<continue on the clone 0|1>`. One output token per event:
+`A|E:<#bonds>:<offset>:<has_cluster_edges>:<breaks_ising_symmetry>:<non_const_diags>:<bond_weights present>`
+after a call (`P` = panic), `s:<fields>` after time steps, `k:<fields>` for the clone. -/
+
+def showQState (s : QmcCtor.State) : String :=
+  s!"{s.bonds.length}:{showRat s.offset}:{showBool s.hasClusterEdges}:{showBool s.breaksIsing}:{showNats s.nonConstDiags}:{showBool s.bondWeights.isSome}"
+
+def kindOf (variant : String) : Option QmcCtor.Kind :=
+  match variant with
+  | "new" => some .new
+  | "new_off" => some .newOff
+  | "diag" => some .diag
+  | "diag_off" => some .diagOff
+  | _ => none
+
+def qmcEvent (s : QmcCtor.State) (ev : String) : String × QmcCtor.State :=
+  match ev.splitOn ":" with
+  | ["clone", _] => ("k:" ++ showQState s, s)
+  | ["step", hb] =>
+    let s' := QmcCtor.ensureWeights s (hb == "1") []
+    ("s:" ++ showQState s', s')
+  | [variant, mat, vars] =>
+    match kindOf variant with
+    | some k =>
+      match QmcCtor.make k s (parseRats mat) (parseNats vars) with
+      | (.ok (), s') => ("A:" ++ showQState s', s')
+      | (.err, s') => ("E:" ++ showQState s', s')
+      | (.panic, s') => ("P", s')
+    | none => ("bad-op", s)
+  | _ => ("bad-op", s)
+
+def qmcEvents (s : QmcCtor.State) : List String → List String
+  | [] => []
+  | ev :: t =>
+    let (o, s') := qmcEvent s ev
+    o :: (if o == "P" then [] else qmcEvents s' t)
+
 def step (toks : List String) : String :=
   match toks with
+  | "qmcctor" :: nvars :: evs =>
+    let evs := evs.filter (· ≠ "-")
+    let outs := qmcEvents (QmcCtor.State.init (parseNat nvars)) evs
+    if outs.isEmpty then "-" else String.intercalate " " outs
+  -- kind `afterconv` (F32: interactions added after `into_qmc`, then sampled): the oracle is model-free
+  -- (no panic, operator string consistent, per-bond counters = direct count); the model's statement is
+  -- that the calls are accepted and can be sampled, i.e. the constant answer `ok`
+  | "afterconv" :: _ => "ok"
   | ["ctor", variant, mat, vars] =>
     let m := parseRats mat
     let vs := parseNats vars
